@@ -125,7 +125,10 @@ impl<'a> Runner<'a> {
 
     pub fn op(&mut self, op: String) -> String {
         if self.buf.len() > 60_000 {
-            // runaway case (only possible on a broken sender): stop executing, keep what was observed
+            // runaway case (only possible on a broken sender): stop executing, keep what was observed - and say so
+            if !self.dead {
+                self.ctx.oracle_fail("C12:case-runaway", &format!("the case needed more than 60000 operations (a drain / polling loop of the generator does not come to an end): last op `{}`", op));
+            }
             self.dead = true;
             return "none".into();
         }
